@@ -7,7 +7,7 @@ import ast
 import z3
 
 from . import decl, heapops, ops
-from .core import (BOOL, INT, NONEV, NUM, STR, TBool, TDict, TInt, TList, TMap, TNone, TNum, TOpaque, TOpt, TRef,
+from .core import (esort, epack, eunpack, BOOL, INT, NONEV, NUM, STR, TBool, TDict, TInt, TList, TMap, TNone, TNum, TOpaque, TOpt, TRef,
                    TRefLike, TSeq, TSet, TSetV, TStr, TTuple, TUnion, Unsupported, Val, boolv, coerce, fresh_name,
                    is_numeric, num, parse_type, strv, to_real, val_eq, val_ite)
 
@@ -181,9 +181,9 @@ def _subscript(node, sc):
         return boolv(z3.Select(base.v, idx.v))
     if isinstance(t, TList):
         seq = heapops.list_seq(sc.heap, base)
-        return t.e.make([seq[norm_index(idx.v, z3.Length(seq))]])
+        return eunpack(seq[norm_index(idx.v, z3.Length(seq))], t.e)
     if isinstance(t, TSeq):
-        return t.e.make([base.v[norm_index(idx.v, z3.Length(base.v))]])
+        return eunpack(base.v[norm_index(idx.v, z3.Length(base.v))], t.e)
     if isinstance(t, TStr):
         return Val(STR, z3.SubString(base.v, norm_index(idx.v, z3.Length(base.v)), 1))
     if isinstance(t, TTuple):
@@ -439,6 +439,17 @@ def _call(node, sc):
         return Val(NUM, z3.If(to_real(x) >= 0, to_real(x), -to_real(x)))
     if name == "floor":
         return Val(INT, z3.ToInt(to_real(args[0])))
+    if name == "hash_num":
+        from .calls import HashNum
+
+        return Val(INT, HashNum(to_real(args[0])))
+    if name == "hash_tuple3":  # hash((type(q), number, unit)) as computed by the engine's model of hash()
+        from .calls import HashCls, HashNum
+
+        f = z3.Function("HashTup3", z3.IntSort(), z3.IntSort(), z3.IntSort(), z3.IntSort())
+        return Val(INT, f(HashCls(heapops.class_of(sc.heap, args[0].v)), HashNum(to_real(args[1])), args[2].v))
+    if name == "hash_items_kv":  # hash of the item set given as (keys, values)
+        return Val(INT, ops.hash_items(args[0].v, args[1].v))
     if name == "hash_items":
         m = args[0]
         return Val(INT, ops.hash_items(m.v[0], m.v[1]))
